@@ -783,6 +783,7 @@ pub fn run(ctx: &mut Ctx) {
             }
             Some(w) if super::c16_fmtmodel::replay(ctx, &case) => { let _ = w; }
             Some(w) if super::c16_more2::replay(ctx, &case) => { let _ = w; }
+            Some(w) if super::c16_query::replay(ctx, &case) => { let _ = w; }
             Some(other) => formats::replay(ctx, other, sub),
             None => {}
         }
@@ -853,5 +854,6 @@ pub fn run(ctx: &mut Ctx) {
     formats::run(ctx);
     super::c16_fmtmodel::run(ctx);
     super::c16_more2::run(ctx);
+    super::c16_query::run(ctx);
     ctx.sample(|| "c16 rd 2 35:6e6f6f646c6573,28:-,31:62677a66,28:- r3,t,s35/0,t,x4,f2,t,s94/0,t,r5 p,3,p,40,p,p,1 0010".into());
 }
